@@ -155,7 +155,7 @@ func runCheck(o *checkOpts) *checkResult {
 	} else {
 		defer os.RemoveAll(tmp)
 	}
-	opt := solveOpts{timeoutS: 8, seed: o.seed, tmp: tmp, keep: o.keep != ""}
+	opt := solveOpts{timeoutS: 12, seed: o.seed, tmp: tmp, keep: o.keep != ""}
 	if o.tier == "thorough" {
 		opt.timeoutS = 60
 		opt.confirm = true
